@@ -1,9 +1,10 @@
 #!/bin/bash
 # usage: try_mutant.sh <patch> <prop> [budget]  — applies a patch to /repo, runs the quick check, restores /repo
 patch=$(realpath "$1"); prop=$2; budget=${3:-8}
-cd /repo || exit 2
+REPO=${VERIF_REPO:-/repo}
+cd $REPO || exit 2
 if ! git diff --quiet; then echo "repo dirty"; exit 2; fi
 git apply "$patch" || { echo "patch does not apply"; exit 2; }
-trap 'git -C /repo checkout -- . ; git -C /repo clean -fdq' EXIT
+trap "git -C $REPO checkout -- . ; git -C $REPO clean -fdq" EXIT
 cd /verif && ./check run "$prop" --budget "$budget"
 echo "EXIT=$?"
